@@ -201,6 +201,13 @@ Eval(P, e, st) ==
     [] e.t = "oos"   -> R(MapGet(st.oos, S(e.name)), st)
     [] e.t = "nr"    -> R(I(st.nr), st)
     [] e.t = "srec"  -> R(M(st.rec), st)                                 \* $*
+    \* positional names (reference-dsl-variables.md): $[[n]] is the NAME of field n, $[[[n]]] its value; "accesses to
+    \* non-existent fields -- i.e., with index less than 1 or greater than NF -- return an absent value"
+    [] e.t \in {"posname", "posval"} ->
+         LET x == Eval(P, e.e, st) IN
+         IF x.v.k # "int" THEN R(IF x.v.k = "absent" THEN Absent ELSE Err, x.st)
+         ELSE IF x.v.n < 1 \/ x.v.n > Len(x.st.rec) THEN R(Absent, x.st)
+         ELSE R(IF e.t = "posname" THEN S(Str(x.st.rec[x.v.n][1])) ELSE x.st.rec[x.v.n][2], x.st)
     [] e.t = "bin" /\ e.op \in {"&&", "||"} ->                            \* short-circuit
          LET l == Eval(P, e.l, st) IN
          IF e.op = "&&" /\ l.v.k = "bool" /\ ~l.v.b THEN R(B(FALSE), l.st)
@@ -332,6 +339,14 @@ AssignTo(P, lhs, v, st0) ==
     [] lhs.t = "oos" ->
          LET nv == PutPath(MapGet(st.oos, S(lhs.name)), ix.vs, v) IN IF nv.k = "error" THEN Fatal(st) ELSE [st EXCEPT !.oos = MapPut(@, S(lhs.name), nv)]
     [] lhs.t = "srec" -> (IF v.k = "map" THEN [st EXCEPT !.rec = v.m] ELSE Fatal(st))
+    \* "left-hand side accesses only refer to fields that already exist ... assigning the name or value of the 6th (or
+    \* 600th) field results in a no-op": $[[n]] = "NEW" renames field n in place, $[[[n]]] = v changes its value
+    [] lhs.t \in {"posname", "posval"} ->
+         LET n == ix.vs[1] IN
+         IF n.k # "int" THEN Fatal(st)
+         ELSE IF n.n < 1 \/ n.n > Len(st.rec) THEN st
+         ELSE IF lhs.t = "posname" THEN [st EXCEPT !.rec = [j \in 1..Len(st.rec) |-> IF j = n.n THEN <<S(Str(v)), st.rec[j][2]>> ELSE st.rec[j]]]
+         ELSE [st EXCEPT !.rec = [j \in 1..Len(st.rec) |-> IF j = n.n THEN <<st.rec[j][1], v>> ELSE st.rec[j]]]
 
 \* a record as a non-JSON writer prints it (flatten-unflatten.md: "if the output format is non-JSON, then ... map-valued
 \* fields are converted to multiple fields, keyed by the original name, a dot and the map keys; empty key-value pairs are
@@ -460,6 +475,9 @@ Exec(P, s, st) ==
     [] s.t = "emit"     -> LET v == MapGet(st.oos, S(s.name)) IN
                            IF v.k = "absent" THEN st
                            ELSE [st EXCEPT !.out = @ \o EmitBy(s.name, v, s.by, <<>>)]
+    \* emitf @a, @b: "several out-of-stream variables side-by-side in the same output record" (the variables of the case
+    \* space are assigned before they are emitted: what emitf makes of an absent one is not documented)
+    [] s.t = "emitf"    -> [st EXCEPT !.out = Append(@, <<"r", RecText([j \in 1..Len(s.names) |-> <<S(s.names[j]), MapGet(st.oos, S(s.names[j]))>>])>>)]
     [] s.t = "emit1"    -> LET x == Eval(P, s.e, st) IN IF x.v.k = "map" THEN [x.st EXCEPT !.out = Append(@, <<"r", RecText(x.v.m)>>)] ELSE x.st
 
 (***************************************************************************)
@@ -499,6 +517,8 @@ UnE(e) ==
     [] e.t = "oos"   -> "@" \o e.name
     [] e.t = "nr"    -> "NR"
     [] e.t = "srec"  -> "$*"
+    [] e.t = "posname" -> "$[[" \o UnE(e.e) \o "]]"
+    [] e.t = "posval"  -> "$[[[" \o UnE(e.e) \o "]]]"
     [] e.t = "bin"   -> Par(e.l, PrecOf(e.l) < Prec(e.op)) \o " " \o e.op \o " " \o Par(e.r, PrecOf(e.r) <= Prec(e.op))
     [] e.t = "neg"   -> "-" \o Par(e.e, PrecOf(e.e) <= 13)
     [] e.t = "not"   -> "!" \o Par(e.e, PrecOf(e.e) <= 13)
@@ -511,8 +531,10 @@ UnE(e) ==
     [] e.t = "lambda" -> "func(" \o Commas(e.params) \o ") " \o UnBlock(e.body)
     [] e.t = "hof"   -> e.f \o "(" \o UnE(e.coll) \o ", " \o UnE(e.fn) \o (IF e.f = "fold" THEN ", " \o UnE(e.init) ELSE "") \o ")"
     [] e.t = "bif"   -> e.f \o "(" \o Commas([i \in 1..Len(e.args) |-> UnE(e.args[i])]) \o ")"
-UnLhs(l) == (CASE l.t = "local" -> l.name [] l.t = "field" -> "$" \o l.name [] l.t = "oos" -> "@" \o l.name [] l.t = "srec" -> "$*")
-            \o Join([i \in 1..Len(l.path) |-> "[" \o UnE(l.path[i]) \o "]"], "")
+UnLhs(l) == IF l.t = "posname" THEN "$[[" \o UnE(l.path[1]) \o "]]"
+            ELSE IF l.t = "posval" THEN "$[[[" \o UnE(l.path[1]) \o "]]]"
+            ELSE (CASE l.t = "local" -> l.name [] l.t = "field" -> "$" \o l.name [] l.t = "oos" -> "@" \o l.name [] l.t = "srec" -> "$*")
+                 \o Join([i \in 1..Len(l.path) |-> "[" \o UnE(l.path[i]) \o "]"], "")
 UnBlock(body) == "{" \o Join([i \in 1..Len(body) |-> UnS(body[i])], " ") \o "}"
 \* statements of a for-loop header: no trailing semicolon, comma-separated
 Bare(s) == CASE s.t = "decl" -> s.ty \o " " \o s.name \o " = " \o UnE(s.e)
@@ -539,6 +561,7 @@ UnS(s) ==
     [] s.t = "pattern" -> UnE(s.c) \o " " \o UnBlock(s.body)
     [] s.t = "filter" -> "filter " \o UnE(s.e) \o ";"
     [] s.t = "emit"   -> "emit @" \o s.name \o Join([i \in 1..Len(s.by) |-> ", \"" \o s.by[i] \o "\""], "") \o ";"
+    [] s.t = "emitf"  -> "emitf " \o Join([i \in 1..Len(s.names) |-> "@" \o s.names[i]], ", ") \o ";"
     [] s.t = "emit1"  -> "emit1 " \o UnE(s.e) \o ";"
 UnFunc(f) == (IF f.sub THEN "subr " ELSE "func ") \o f.name \o "("
              \o Commas([i \in 1..Len(f.params) |-> (IF f.params[i].ty = "var" THEN "" ELSE f.params[i].ty \o " ") \o f.params[i].name]) \o ")"
